@@ -337,6 +337,32 @@ impl Check for C12 {
                 }
             }
         });
+        // more stops than any colour table has entries: a smooth ramp in 300 steps
+        {
+            let many: Vec<Stop> = (0..300).map(|i| { let g = (i * 255 / 299) as u32; Stop { pos: i as f32 / 299.0, color: 0xff000000 | (g << 16) | ((255 - g) << 8) | (g / 2) } }).collect();
+            let mg: Vec<(&'static str, Vec<f32>)> = vec![("linear", vec![2.5, 3.25, 20.0, 4.0]), ("linear", vec![4.0, 30.0, 4.0, -10.0]), ("radial", vec![12.0, 12.0, 16.0]), ("sweep", vec![12.0, 12.0, 0.0, 360.0])];
+            run.bound("300 stops", format!("{} geometries x 3 spreads x 2 alphas, identity", mg.len()));
+            run.par(mg.len() * 3, |s, l| {
+                let (kind, p) = &mg[s / 3];
+                let spread = [Spr::Pad, Spr::Repeat, Spr::Reflect][s % 3];
+                for alpha in [1.0f32, 0.5] {
+                    let scene = Scene { w: S, h: S, dst: Dst::White, ops: vec![Op::Fill(PathSpec::rect(-200., -200., 400., 400.), make(kind, p, many.clone(), spread), Opts { mode: BlendMode::Src, alpha, aa: true })] };
+                    l.states += 1;
+                    l.transitions += 1;
+                    l.traces += 1;
+                    l.evals += 1;
+                    match eval(&scene) {
+                        Ok((hsh, n, sk)) => {
+                            l.outcome(hsh);
+                            l.count("pixels_asserted", n);
+                            l.count("pixels_not_asserted_discontinuity", sk);
+                            l.nontrivial += 1;
+                        }
+                        Err(v) => run.report(40_000 + s, v),
+                    }
+                }
+            });
+        }
         // wide and tall surfaces: device coordinates beyond 256
         let wide: Vec<(&'static str, Vec<f32>)> = vec![
             ("linear", vec![250., 0., 290., 0.]),
